@@ -62,7 +62,7 @@ func (g *Generator) translate(dir, name string, isTarget bool) (res *FuncResult)
 		return r
 	}
 	tgt := g.targets[key]
-	lname := strings.ReplaceAll(name, ".", "_")
+	lname := strings.ReplaceAll(strings.ReplaceAll(name, ".", "_"), "#", "_")
 	if g.inProgress[key] {
 		return &FuncResult{Key: key, LeanName: lname, Reason: "recursive function (outside the subset)"}
 	}
@@ -191,6 +191,7 @@ func (t *fn) run() *FuncResult {
 	if t.tgt != nil && len(t.tgt.Extern) > 0 {
 		t.findExterns(out)
 	}
+	t.findExternFuncs(out, sig)
 	var params []string
 	// receiver
 	if sig.Recv() != nil {
@@ -296,6 +297,10 @@ params:
 		params = append(params, fmt.Sprintf("(%s : %s)", e.Name, e.Lean))
 		out.Sig.Params = append(out.Sig.Params, e)
 	}
+	globalParams := t.declareGlobals(out) // package-level arrays named in the option "globals"
+	params = append(params, globalParams...)
+	globalInOut := append([]*types.Var{}, t.inout...)
+	t.inout = nil
 	// results
 	named := false
 	for i := 0; i < sig.Results().Len(); i++ {
@@ -342,6 +347,11 @@ params:
 			if dep := t.recvMethodDep(ce); dep != nil && dep.OK && dep.Sig.RecvOut {
 				t.recvOut = true
 			}
+			for _, a := range t.writtenArgs(ce) {
+				if _, ok := t.recvFieldArg(a); ok {
+					t.recvOut = true // wave 9: `f(r.vals, …)` with f writing its slice parameter
+				}
+			}
 			return true
 		})
 	}
@@ -383,6 +393,10 @@ params:
 		}
 		t.notes = append(t.notes, fmt.Sprintf("in-out slice parameter `%s`: written by the function, so its final value is returned after the results (state passing; its length never changes); %s", o.Name(), pre))
 	}
+	t.inout = append(t.inout, globalInOut...)
+	for _, o := range globalInOut {
+		t.inoutSet[o] = true
+	}
 	retv := func(v string) []string {
 		return []string{".ok " + parenIf(t.buildFull(v))}
 	}
@@ -395,12 +409,17 @@ params:
 		}
 		return retv("()")
 	})
-	if t.recvOut != recvOut || len(t.inout) != nInOut {
+	if t.recvOut != recvOut || len(t.inout) != nInOut+len(globalInOut) {
 		t.reject(fd, "internal: receiver mutation detected late")
 	}
 	for name, used := range t.externUsed() {
 		if !used {
 			t.reject(fd, "extern expression `%s` does not occur in the function", name)
+		}
+	}
+	for name := range t.extFuncs {
+		if !t.extFSeen[name] {
+			t.reject(fd, "extern_func `%s` is not called in the function", name)
 		}
 	}
 	resStr := t.fullResTy()
@@ -526,7 +545,9 @@ func structCode(t *ty) string {
 	var fs []string
 	for i, f := range t.st.fields {
 		c := t.st.ftypes[i].code()
-		if c == "" {
+		if c == "" || strings.Contains(c, ";") {
+			// (a field that is a slice of structs — "slist:…;…" — cannot be nested in a struct code: its
+			// field separators would be read as the outer struct's; such a struct has no protocol form)
 			return ""
 		}
 		fs = append(fs, f+"="+c)
@@ -661,7 +682,9 @@ func (g *Generator) render(targets []*FuncResult) string {
 	fmt.Fprintf(&b, "-- property %s: translated Go functions (shallow embedding over Golib.GoSem).\n", g.id)
 	b.WriteString("-- `int` is translated to the unbounded `Int` (the one idealisation, DESIGN §3.3); slices and strings\n")
 	b.WriteString("-- are lists without aliasing and with cap = len; everything else follows Go (wrap-around, panics).\n")
-	b.WriteString("import Golib.Prelude.GoSem\n\nset_option linter.unusedVariables false\n\n")
+	b.WriteString("import Golib.Prelude.GoSem\n")
+	b.WriteString(extraLeanImports(targets))
+	b.WriteString("\nset_option linter.unusedVariables false\n\n")
 	fmt.Fprintf(&b, "namespace Golib.Gen.Trans.%s\nopen Golib.GoSem\n\n", g.id)
 	// structures
 	for _, n := range g.structOrder {
@@ -673,11 +696,18 @@ func (g *Generator) render(targets []*FuncResult) string {
 		for _, tp := range si.tparams {
 			hdr += " (" + tp + " : Type)"
 		}
+		if si.hasFuncField() {
+			b.WriteString("-- callback field(s) of this structure: ASSUMED pure and total (no panic, no effect, the result depends on the arguments only), as for a callback parameter\n")
+		}
 		fmt.Fprintf(&b, "structure %s where\n", hdr)
 		for i, f := range si.fields {
 			fmt.Fprintf(&b, "  %s : %s\n", f, si.ftypes[i].lean())
 		}
-		b.WriteString("deriving Repr, DecidableEq\n\n")
+		if si.hasFuncField() {
+			b.WriteString("\n") // wave 9: a callback field has neither Repr nor decidable equality
+		} else {
+			b.WriteString("deriving Repr, DecidableEq\n\n")
+		}
 	}
 	for _, r := range g.order {
 		if !r.OK {
@@ -863,6 +893,10 @@ func runTransCase(r *FuncResult) string {
 	var pats, binds, call []string
 	k := 0
 	for _, p := range r.Sig.Params {
+		if p.Impl != "" {
+			call = append(call, "("+p.Impl+")")
+			continue
+		}
 		if sn, fields, ok := structFields(p.Code); ok {
 			var fv []string
 			for _, f := range fields {
@@ -900,6 +934,9 @@ func runTransCase(r *FuncResult) string {
 		x := fmt.Sprintf("x%d", i)
 		if _, fields, ok := structFields(c); ok {
 			for _, f := range fields {
+				if strings.HasPrefix(f[1], "menu:") {
+					continue // wave 9: a callback field is not printed
+				}
 				pr := printerFor(f[1], inst)
 				if pr == "" {
 					return ""
